@@ -2,7 +2,7 @@
 
 from __future__ import annotations
 
-from .. import gen, oracles as O, rig
+from .. import gen, oracles as O, rig, tconc
 from ..view import View
 from . import common
 
@@ -223,6 +223,8 @@ def work(ctx, tier):
                     common.payload(sc, e, j, mode="reuse"),
                 )
     overlapping_calls(ctx, rng, (400 if tier == "quick" else 8000) // ctx.nshards)
+    # two threads on one policy object with per-class caps, incl. the very first failures a fresh object handles
+    tconc.thread_slice(ctx, tier, common.rng_for(ctx, "threads"), ["caps", "identity"], budget=False, breaker=False, first_use=True, nprog=2)
     common.reconfig_slice(ctx, tier, common.rng_for(ctx, "reconfig"), lambda sc, e: _one(ctx, sc, e, stats))
     if tier != "quick":
         common.repo_suite_under_monitors(ctx, "caps")
@@ -241,6 +243,7 @@ def conclude(ctx):
     floors["runs_with_two_caps_tight"] = (ctx.cnt["runs_with_two_caps_tight"], 50)
     floors["overlap_nested_runs"] = (ctx.cnt["overlap_nested_runs"], 50)
     floors["overlap_async_runs"] = (ctx.cnt["overlap_async_runs"], 50)
+    floors["schedules_at_level:lines"] = (ctx.cnt["schedules_at_level:lines"], 100)
     floors["reconfigured_scenarios"] = (ctx.cnt["reconfigured_scenarios"], 80)
     floors["cap_accounts_checked_after_a_contained_callback_error"] = (ctx.cnt["cap_accounts_checked_after_a_contained_callback_error"], 200)
     return dict(
@@ -261,6 +264,8 @@ def conclude(ctx):
 
 def replay(data):
     p = data["payload"]
+    if "tspec" in p:
+        return tconc.replay(p)
     if "overlap" in p:
         print("overlapping-call cases are generated from the seed; re-run `./check C01 --tier quick --seed", data.get("seed"), "`;", p)
         return 1
